@@ -253,6 +253,34 @@ class Run:
                 continue
             seen.add(key)
             self.samples.append({"ui": ui, "root": r, "x": x, "cand": cand, "j": j})
+        # ---- keep only values whose JSON text is a fixpoint of the ORIGIN's own text round trip: serde_json (built
+        # without `float_roundtrip`) parses some decimal float texts one ULP off, so for such a double
+        # from_str(to_string(x)) != x already for the original type alone -- not a statement about typify
+        for _ in range(2):
+            ans2 = o.query([{"m": sm["ui"], "t": sm["x"], "op": "de", "input": jtext(sm["j"])} for sm in self.samples])
+            nxt, changed = [], 0
+            for sm, a in zip(self.samples, ans2):
+                if "ok" not in a:
+                    changed += 1
+                    continue
+                if not k5.canon_eq(tocoq.canon(a["ok"]), tocoq.canon(sm["j"])):
+                    changed += 1
+                    sm = dict(sm, j=a["ok"])
+                nxt.append(sm)
+            self.samples = nxt
+            if not changed:
+                break
+        else:
+            ans2 = o.query([{"m": sm["ui"], "t": sm["x"], "op": "de", "input": jtext(sm["j"])} for sm in self.samples])
+            self.samples = [sm for sm, a in zip(self.samples, ans2)
+                            if "ok" in a and k5.canon_eq(tocoq.canon(a["ok"]), tocoq.canon(sm["j"]))]
+        seen2, uniq2 = set(), []
+        for sm in self.samples:
+            key = (sm["ui"], sm["root"], sm["x"], json.dumps(sm["j"], sort_keys=True))
+            if key not in seen2:
+                seen2.add(key)
+                uniq2.append(sm)
+        self.samples = uniq2
         # ---- generated side: de j
         q1, m1 = [], []
         self.results = [{} for _ in self.samples]
